@@ -2098,6 +2098,7 @@ func CheckMultisigPar(curve elliptic.Curve, h []byte, pkeys [][]byte, sigs [][]b
 	const workerCount = 3
 	tasks := make(chan task, 2)
 	results := make(chan verify, len(sigs))
+	defer close(tasks) // Workers have to be stopped whatever happens.
 	for range workerCount {
 		go worker(tasks, results)
 	}
@@ -2149,8 +2150,6 @@ loop:
 		taskCount++
 		tasks <- task{pub: bytesToPublicKey(pkeys[nextKey], curve), signum: nextSig}
 	}
-
-	close(tasks)
 
 	return sigok
 }
